@@ -833,13 +833,27 @@ class ProbeSpec(CaseSpec):
                 why = self.judge_run(name, e, g)
                 if why:
                     detail['why'] = why
-                    res['failures'].append((dict(sig, clause=why.split(':')[0]), detail))
+                    res['failures'].append((dict(sig, clause=why.split(':')[0], what=why), detail))
         res['coverage']['programs'] = len(got)
         res['coverage']['probe_results'] = samples
         return res
 
     def judge_accepted(self, name, e, g):
         return 'accepted: a program expected to be rejected compiles'
+
+
+class C04Spec(ProbeSpec):
+    prefix = 'c04_'
+
+    def judge_run(self, name, e, g):
+        # "same type hash: A and B" lines name the colliding markers; the set of pairs identifies the failure
+        pairs = sorted(set(tuple(l[len('same type hash: '):].split(' and ')) for l in g['stdout'].splitlines() if l.startswith('same type hash: ')))
+        pairs = [p for p in pairs if not p[0].endswith('/bare')]
+        cross_bad = [l for l in g['stdout'].splitlines() if l.startswith('cross ') and 'rejected=false' in l]
+        if pairs or cross_bad:
+            return 'collision: %s%s' % (','.join('%s=%s' % p for p in pairs), (' accepted: ' + '; '.join(cross_bad)) if cross_bad else '')
+        if g['rc'] != 0: return 'probe-failed: exit status %s: %s' % (g['rc'], (g.get('stderr') or '')[-300:])
+        return None
 
 
 class C05Spec(ProbeSpec):
@@ -967,7 +981,7 @@ SPECS = {
     'C03': CaseSpec(o_c03, 'offsets of every borrowed part of real ε-copy results (pointer minus buffer start, printed by Show on the ε types) against the offsets of the writer blocks in the model; allocator calls and bytes during deserialize_eps for each value and for the same value with every borrowed payload repeated x4 and x16 (x2, x8, x64 thorough).'),
     'C06': CaseSpec(o_c06, 'golden corpus (NCORPUS files written by earlier builds for the fixed corpus universe: 227 at claim time, the others appended with the later stress definitions): re-serialization must reproduce the stored bytes, both deserializers must return the stored value, hash words must be the stored ones; plus bytes / hash feeds / digests of every generated type and value against the independent Lean encoder and XXH3 port.'),
     'C09': C09Spec(o_c09, 'failing loads (8 truncation points, corrupted magic / type hash, a foreign type, garbage) and succeeding loads, repeated 12 (40) times per loader under a counting global allocator and a /proc/self/maps count; 9 probe programs (one per access path) compiled against the working tree.'),
-    'C04': CaseSpec(o_c04, 'type and alignment feeds (recorded from the real type_hash / align_hash with a recording Hasher) and digests of every type of the universe, which contains for every definition without type parameters its near-miss mutants (field renamed, fields swapped, field retyped to a same-size type, copy kind toggled, repr/align changed, const renamed / value changed, variant renamed / reordered; vec / boxed slice / array / tuple variations); bytes of each type deserialized as its mutants and as other types (all near-miss pairs, 6000 sampled ordered pairs in the quick tier, all pairs in the thorough tier), both modes.'),
+    'C04': C04Spec(o_c04, 'type and alignment feeds (recorded from the real type_hash / align_hash with a recording Hasher) and digests of every type of the universe, which contains for every definition without type parameters its near-miss mutants (field renamed, fields swapped, field retyped to a same-size type, copy kind toggled, repr/align changed, const renamed / value changed, variant renamed / reordered; vec / boxed slice / array / tuple variations); bytes of each type deserialized as its mutants and as other types (all near-miss pairs, 6000 sampled ordered pairs in the quick tier, all pairs in the thorough tier), both modes.'),
     'C08': C08Spec(o_c08, 'store + load_full / load_mem / load_mmap / mmap of generated values (all 8 flag sets for a quarter of the cases in the quick tier), file lengths of every residue modulo 64 (32 in the quick tier), region range through the hook, tail bytes read back, the case moved, boxed, read from 4 threads and sent to another thread; the load_full / load_mem cases again with the crate built without the mmap feature.'),
     'C18': CaseSpec(o_c18, 'serialize_with_schema of every generated value: bytes versus the plain writer, rows versus the model forest, pre-order / tiling / in-stream / zero padding / alignment invariants on the real rows, to_csv and debug under catch_unwind.'),
     'C13': CaseSpec(o_c13, 'failure at every position k in [0,len] (all k for a fifth of the types in the quick tier, boundary and sampled k for the rest) with random per-call caps and Interrupted patterns, splitting/retrying writers, flush failure, BufWriter over /dev/full; slice references and structures holding them with the allocator protecting the borrowed buffer.'),
